@@ -269,6 +269,9 @@ class Path:
         self.obligations.append(Obligation(name, list(self.pc), goal, kind, line, self.pid))
 
     def assume(self, *facts):
+        if ops._pending_axioms:
+            extra, ops._pending_axioms[:] = list(ops._pending_axioms), []
+            facts = tuple(extra) + tuple(facts)
         for f in facts:
             if f is None:
                 continue
@@ -343,6 +346,40 @@ class Path:
                 continue
             self.axioms_added.add(l)
             self.assume(self.ev_spec(e, Env({}, self.env.heap, self.env.alloc, spec=True)))
+
+    def check_guard(self, recv, owner, attr, line):
+        g = self.unit.guards.get((owner, attr))
+        if g is None or self.fc.kind == "init":
+            return
+        cond, label = g
+        sub = Env({"self": recv}, self.env.heap, self.env.alloc, spec=True)
+        self.oblige("%s/%s@L%d:%s.%s" % (self.fc.qualname, label, line, owner, attr), self.ev_spec(cond, sub).t, "guarded-access", line)
+
+    def apply_interference(self, line, why):
+        """thread-modular environment step (DESIGN §5): other processes may have run"""
+        itf = self.unit.interference
+        if itf is None or not self.selfname or itf["cls"] not in self.eng.mro(self.concrete) or self.fc.kind == "init":
+            return
+        if getattr(self.fc, "quiescent", False):
+            return          # the contract requires that no other process / thread is active during this call
+        selfv = self.env.locals[self.selfname]
+        pre = Env({"self": selfv}, dict(self.env.heap), self.env.alloc, spec=True)
+        pre.old = pre
+        w = self.ev_spec(itf["when"], pre).t
+        if not self.decide(w):
+            return
+        whole, cells = set(), {}
+        for loc in itf["modifies"]:
+            self._mod_loc(loc, pre, whole, cells)
+        for key in sorted(whole):
+            self._uniq_heap(key)
+        for key, refs in sorted(cells.items(), key=lambda kv: kv[0]):
+            srt = self.eng.all_heap_keys()[key]
+            for r in refs:
+                self.havoc_cell(key, r, srt)
+        post = Env({"self": selfv}, self.env.heap, self.env.alloc, spec=True, old=pre)
+        for e in itf["ensures"]:
+            self.assume(self.ev_spec(e, post))
 
     def new_ref(self, clsname):
         r = fresh("new_" + clsname, INT)
@@ -526,6 +563,8 @@ class Path:
             if bound_to in self.env.locals:
                 self.env.locals[wname] = self.env.locals[bound_to]
         sv = self.env.spec_view(old=self.entry, result=result)
+        for e in fc.uses_exit:
+            self.assume_use(e, sv)
         for e, l in fc.hints_l:
             ghosts = {x.id for x in ast.walk(ast.parse(e.strip(), mode="eval")) if isinstance(x, ast.Name) and x.id.startswith("g_")}
             if not ghosts <= set(sv.locals):
@@ -840,6 +879,7 @@ class Path:
                 raise Unsupported("store to undeclared attribute %s.%s" % (ref.s.cls, tgt.attr))
             if d[2]:
                 raise Unsupported("code writes a ghost field")
+            self.check_guard(ref, d[0], tgt.attr, getattr(tgt, "lineno", 0))
             self.hwrite(ref, tgt.attr, v)
             return
         if isinstance(tgt, ast.Subscript) and isinstance(tgt.slice, ast.Slice):
@@ -872,6 +912,9 @@ class Path:
                 return
             raise Unsupported("subscript store on sort %r" % base.s)
         if isinstance(tgt, (ast.Tuple, ast.List)):
+            if isinstance(v.s, OptS) and isinstance(v.s.inner, (TupS, SeqS)):
+                self.guard(z3.Not(opt_is_none(v.t)), "TypeError", getattr(tgt, "lineno", 0))      # cannot unpack None
+                v = V(opt_val(v.t), v.s.inner)
             if isinstance(v.s, TupS):
                 if len(v.s.elems) != len(tgt.elts):
                     raise Unsupported("unpacking arity")
@@ -980,8 +1023,16 @@ class Path:
             if d is None:
                 continue
             key = (d[0], fnode.attr)
-            if isinstance(recv, ast.Name) and recv.id == self.selfname:
-                self.havoc_cell(key, rv.t, d[1])
+            stable = True
+            for m_ in ast.walk(recv):
+                if isinstance(m_, ast.Name) and m_.id != self.selfname and m_.id not in self.fc.params and (m_.id in names or m_.id not in env.locals):
+                    stable = False
+                if isinstance(m_, ast.Attribute) and m_.attr in {f_.attr for f_ in fields if f_ is not fnode and f_.attr != fnode.attr}:
+                    stable = False
+                if isinstance(m_, (ast.Call, ast.Subscript)):
+                    stable = False
+            if stable:
+                self.havoc_cell(key, rv.t, d[1])       # the receiver denotes the same object in every iteration
             else:
                 self.havoc_field(key)
         # heap: callees' modifies
@@ -1200,6 +1251,8 @@ class Path:
 
     def exec_while(self, s):
         k, lc = self.loop_contract(s)
+        for e in lc.uses_init:
+            self.assume_use(e, self.env.spec_view(old=self.entry))
         self.assert_invariants(lc, k, "init", s.lineno)
         self.havoc_for_loop(s)
         self.assume_invariants(lc)
@@ -1222,9 +1275,19 @@ class Path:
             return
         self.end_iteration(lc, k, s, d0)
 
+    def assume_use(self, expr, env):
+        """assume an instance of a proved lemma or of a recursive definition (nothing else may be assumed this way)"""
+        node = ast.parse(expr.strip(), mode="eval").body
+        ok = isinstance(node, ast.Call) and isinstance(node.func, ast.Name) and node.func.id in ("lemma_inst", "unfold")
+        if not ok:
+            raise StaleContract("use-clause must be lemma_inst(...) or unfold(...): %s" % expr)
+        self.assume(self.ev_spec(node, env))
+
     def end_iteration(self, lc, k, s, d0, extra=None):
         for g in lc.ghost_end:
             self.exec_ghost(g, extra=extra)
+        for e in lc.uses_end:
+            self.assume_use(e, self.env.spec_view(old=self.entry, extra=extra))
         for h in lc.hints:
             hv = self.ev_spec(h, self.env.spec_view(old=self.entry, extra=extra))
             self.oblige("%s/loop#%d:hint:%s" % (self.fc.qualname, k, h), hv.t, "hint", s.lineno)
@@ -1542,6 +1605,8 @@ class Path:
         if isinstance(recv.s, RefS):
             d = self.eng.field_decl(recv.s.cls, n.attr)
             if d is not None:
+                if not env.spec:
+                    self.check_guard(recv, d[0], n.attr, getattr(n, "lineno", 0))
                 return self.hread(env, recv, n.attr)
             # property getter with a contract?
             fc = self.eng.find_contract(recv.s.cls, n.attr)
@@ -1570,8 +1635,11 @@ class Path:
         es = vs[0].s
         if any(v.s == NONE for v in vs):
             es = ANY if all(v.s in (NONE, ANY) for v in vs) else next(v.s for v in vs if v.s != NONE)
+        all_none = all(v.s == NONE for v in vs)
         vs = [ops.coerce(v, es) for v in vs]
-        return ops.seq_lit(SeqS(es), vs)
+        out = ops.seq_lit(SeqS(es), vs)
+        out.all_none = all_none
+        return out
 
     def ev_Dict(self, n, env):
         if n.keys:
@@ -1675,6 +1743,8 @@ class Path:
                 ar, br = ops.coerce(a, REAL), ops.coerce(b, REAL)
                 return V(ar.t / br.t, REAL)
             raise Unsupported("arithmetic operator %s" % type(op).__name__)
+        if a.s == STR and b.s == STR and isinstance(op, ast.Add):
+            return V(z3.Function("str_cat", z(STR), z(STR), z(STR))(a.t, b.t), STR)
         if isinstance(a.s, SeqS) and isinstance(op, ast.Add):
             a, b = self.unify(a, b)
             if a.t is None and b.t is None:
@@ -1698,7 +1768,9 @@ class Path:
                 j = ops.qvar("jp")
                 self.assume(seq_len(r) == ite(b.t > 0, b.t, 0),
                             z3.ForAll([j], seq_get(r, j) == seq_get(a.t, 0), patterns=[seq_get(r, j)]))
-                return V(r, a.s)
+                out = V(r, a.s)
+                out.all_none = getattr(a, "all_none", False)
+                return out
         raise Unsupported("operator %s on %r and %r (line %d)" % (type(op).__name__, a.s, b.s, line))
 
     def ev_Compare(self, n, env):
